@@ -5,8 +5,8 @@ from ..interp_prop import InterpProp
 
 class C01(InterpProp):
     id = 'C01'
-    quick_cases = 200
-    thorough_cases = 4000
+    quick_cases = 1000
+    thorough_cases = 40000
     n_ops = 36
     rule = ('random well-formed charts (≤14 states, dense transitions with all priority classes, guards over '
             'event parameters, context flags, after/idle/active) × random histories of queue/setvar/exec; '
